@@ -181,24 +181,26 @@ def fixed_work(pg):
     items = copy.deepcopy(pg.items)
     text = ppref.render(items)
     names = list(pg.names)
-    case = PPCase(text, path='top.sv', sym_defines={n: ppfamily.ALT_BODIES[n] for n in names}, strip=False, label='fix/' + pg.label)
+    case = PPCase(text, path='top.sv', sym_defines={n: ppfamily.ALT_BODIES[n] for n in names}, strip='sym', label='fix/' + pg.label)
     f_str = E.fn('preprocess_str')
 
-    def run(it, txt, table):
-        r = it.run_func(f_str, [txt, PathV('top.sv'), Ref([table], 0), Ref([VecV([])], 0), False, False, 0, 0])
+    def run(it, txt, table, strip):
+        r = it.run_func(f_str, [txt, PathV('top.sv'), Ref([table], 0), Ref([VecV([])], 0), False, strip, 0, 0])
         return it.concretize(r)
 
     def body(it):
+        import z3
+        strip = it.decide(z3.Bool('strip_comments'), 'strip_comments')
         it.env['native'] = E.native()
         it.env['format_hook'] = E.models_pp.format_hook
         it.env['fs'] = E.make_fs(case)
         t1, _ = E.make_table(it, case)
         t2, _ = E.make_table(it, case)
-        r1 = run(it, text, t1)
+        r1 = run(it, text, t1, strip)
         if r1.variant != 'Ok':
             return {'skip': True}
         x1 = r1.fields[0].fields[0].fields[0].s
-        r2 = run(it, x1, t2)
+        r2 = run(it, x1, t2, strip)
         if r2.variant != 'Ok':
             return {'bad': 'second run fails: %r' % (E.error_py(r2.fields[0]),), 'first': x1}
         x2 = r2.fields[0].fields[0].fields[0].s
@@ -222,7 +224,7 @@ def fixed_work(pg):
         if v.get('bad') and v['bad'] not in seen:
             seen.add(v['bad'])
             conc = E.concrete_assignment(case, r.model)
-            q = {'cmd': 'preprocess', 'mode': 'str', 'path': 'top.sv', 'defines': E.defines_req(conc['defines'])}
+            q = {'cmd': 'preprocess', 'mode': 'str', 'path': 'top.sv', 'defines': E.defines_req(conc['defines']), 'strip_comments': bool(conc.get('strip_comments', False))}
             n1 = E.native().request(dict(q, text=text), cache=False)
             ok = False
             role = 'fixedpoint:' + pg.label
